@@ -227,7 +227,7 @@ func runC06(e *Env) error {
 	e.CaseType = "scase"
 	e.ShardSize = 400
 	e.ShardBytes = 24000
-	e.Rule = "public API (PermuteIndex, UnpermuteIndex, ShuffleList, UnshuffleList) with real SHA-256: every list size 0..N (quick 530, thorough 1100) for several seeds and round counts, sizes 2^k-1,2^k,2^k+1, rounds in {0,1,2,3,10,90,255}, distinct and duplicate-carrying lists, round trips, per-index calls up to size 2^40 incl. index 0 / size-1 and out-of-domain (size 0, index >= size); inner functions through the verif hook with weak hashes forcing pivot 0, size-1, mirror edges, all-swap/no-swap and block/byte dependent coins. non-trivial = rounds > 0, size > 1 (and index < size); distinct by full input"
+	e.Rule = "public API (PermuteIndex, UnpermuteIndex, ShuffleList, UnshuffleList) with real SHA-256: every list size 0..N (quick 530, thorough 1100) for several seeds and round counts (quick: the second sweep keeps every size up to 64 and around 256/512 and every third size elsewhere), sizes 2^k-1,2^k,2^k+1, rounds in {0,1,2,3,10,90,255}, distinct and duplicate-carrying lists, round trips, per-index calls up to size 2^40 incl. index 0 / size-1 and out-of-domain (size 0, index >= size); inner functions through the verif hook with weak hashes forcing pivot 0, size-1, mirror edges, all-swap/no-swap and block/byte dependent coins. non-trivial = rounds > 0, size > 1 (and index < size); distinct by full input"
 	if e.Replay != "" {
 		return replay(e)
 	}
@@ -268,6 +268,9 @@ func runC06(e *Env) error {
 				rounds = uint8(4 + (n+uint64(s))%7)
 			}
 			dir := (n+uint64(s))%2 == 0
+			if e.Quick() && s >= 1 && n > 64 && !(n >= 250 && n <= 262) && !(n >= 506 && n <= 518) && n%3 != 0 {
+				continue // quick tier: the later sweeps thin out away from the 256/512 boundaries
+			}
 			d := Desc{Fn: listFn(dir), Hash: "sha256", Seed: seeds[s%len(seeds)], Rounds: rounds, Size: n, Input: "iota", Kind: "list_sha_allsizes"}
 			if s%2 == 1 && n > 0 {
 				d.Input, d.A, d.B, d.M = "aff", 7, 3, 1+n/3 // duplicates
